@@ -649,10 +649,16 @@ class AnsiString:
             new_len = len(new_s._s)
             if new_len not in new_s._fmts:
                 new_s._fmts[new_len] = _AnsiSettingPoint()
-            already_removed = new_s._fmts[new_len].rem
-            settings_to_remove = [
-                s for s in previous_settings if __class__._find_setting_reference(s, already_removed) < 0
-            ]
+            # (each stop marker accounts for one active entry only - after concatenating copies, the same setting
+            # object can be active more than once)
+            already_removed = list(new_s._fmts[new_len].rem)
+            settings_to_remove = []
+            for s in previous_settings:
+                rem_idx = __class__._find_setting_reference(s, already_removed)
+                if rem_idx >= 0:
+                    del already_removed[rem_idx]
+                else:
+                    settings_to_remove.append(s)
             new_s._fmts[new_len].rem.extend(settings_to_remove)
 
         return new_s
